@@ -1,3 +1,4 @@
+import PorepyVerif.C05.Model
 /-
 C08 — executable model of the time-step / iterate storage helpers of
 `porepy.numerics.ad.ad_utils` (`set_solution_values`, `get_solution_values`,
@@ -39,6 +40,7 @@ def insert (s : Store) (i : Nat) (v : Val) : Store := ainsert s i v
 inductive Err where
   | valueError
   | keyError
+  | assertionError
   deriving DecidableEq
 
 /-- observable result of one call -/
@@ -282,5 +284,230 @@ def cmdSeq : Data → List Cmd → Data × List Out
     | o =>
       let r' := cmdSeq r.1 cs
       (r'.1, o :: r'.2)
+
+/-! ### the equation-system wrappers (`set_variable_values`, `get_variable_values`,
+`shift_time_step_values`, `shift_iterate_values`)
+
+The wrappers see the degrees of freedom as the blocks of `_variable_numbers` in dict order; a block is
+(storage name of the variable, number of dofs).  `layoutOf` reads this list off a state of the C05
+model of the same class (C05 proves what that layout is); the definitions and theorems below hold
+for any layout.  `sel` = the names `_parse_variable_type` produced. -/
+
+abbrev Layout := List (String × Nat)
+
+/-- the loop of `set_variable_values`: `local_vec = values[dof_start:dof_end]` for every selected block
+    in global order (python slices truncate silently); an exception of the helper ends the loop.
+    Returns the data, the outcome and the final `dof_end`. -/
+def esSetLoop (sel : List String) (ts it : Option Int) (additive : Bool) (values : Val) :
+    Data → Nat → Layout → Data × Out × Nat
+  | d, start, [] => (d, .ok, start)
+  | d, start, b :: rest =>
+    if b.1 ∈ sel then
+      let r := setSolutionValues d b.1 ((values.drop start).take b.2) ts it additive
+      match r.2 with
+      | .err e => (r.1, .err e, start + b.2)
+      | _ => esSetLoop sel ts it additive values r.1 (start + b.2) rest
+    else esSetLoop sel ts it additive values d start rest
+
+/-- `set_variable_values`, incl. the final `assert dof_end == values.size` (after the writes) -/
+def esSet (lay : Layout) (d : Data) (values : Val) (sel : List String) (ts it : Option Int)
+    (additive : Bool) : Data × Out :=
+  let r := esSetLoop sel ts it additive values d 0 lay
+  match r.2.1 with
+  | .err e => (r.1, .err e)
+  | _ => (r.1, if r.2.2 = values.length then .ok else .err .assertionError)
+
+/-- `get_variable_values`: concatenation of the selected blocks in global order; the first failing
+    helper call decides the exception -/
+def esGetLoop (sel : List String) (ts it : Option Int) (d : Data) : Layout → Out
+  | [] => .val []
+  | b :: rest =>
+    if b.1 ∈ sel then
+      match getSolutionValues d b.1 ts it with
+      | .val x =>
+        match esGetLoop sel ts it d rest with
+        | .val l => .val (x ++ l)
+        | o => o
+      | o => o
+    else esGetLoop sel ts it d rest
+
+def esGet (lay : Layout) (d : Data) (sel : List String) (ts it : Option Int) : Out :=
+  esGetLoop sel ts it d lay
+
+/-- `shift_time_step_values` / `shift_iterate_values`: one helper call per parsed variable, in
+    argument order, duplicates included -/
+def esShift (d : Data) (loc : Loc) (m : Option Int) : List String → Data × Out
+  | [] => (d, .ok)
+  | n :: rest =>
+    let r := shiftSolutionValues d n (some loc) m
+    match r.2 with
+    | .err e => (r.1, .err e)
+    | _ => esShift r.1 loc m rest
+
+/-- total size of the selected blocks -/
+def selSize (sel : List String) : Layout → Nat
+  | [] => 0
+  | b :: rest => (if b.1 ∈ sel then b.2 else 0) + selSize sel rest
+
+/-- offset of the block of `name` inside the vector of the selected blocks (`none`: not selected) -/
+def blockOffset (sel : List String) (name : String) : Layout → Option Nat
+  | [] => none
+  | b :: rest =>
+    if b.1 ∈ sel then
+      if b.1 = name then some 0 else (blockOffset sel name rest).map (· + b.2)
+    else blockOffset sel name rest
+
+/-- one stored slot of the data dictionary -/
+def slotOf (d : Data) (loc : Loc) (name : String) (i : Nat) : Option Val :=
+  (dget d (loc, name)).bind (fun s => lookup s i)
+
+/-- the two index arguments that address index `i` of location `loc` -/
+def tsArg (loc : Loc) (i : Nat) : Option Int := if loc = .timeStep then some (i : Int) else none
+def itArg (loc : Loc) (i : Nat) : Option Int := if loc = .iterate then some (i : Int) else none
+
+/-- storage name of a C05 variable: one data dictionary per grid, one entry per variable name -/
+def c05Name (v : C05.Var) : String := toString v.grid ++ ":" ++ toString v.name
+
+/-- the blocks of a C05 equation-system state, in the dict order of `_variable_numbers` -/
+def layoutOf (s : C05.State) : Layout :=
+  s.numbers.filterMap (fun p => (C05.findVar s.vars p.1).map (fun v => (c05Name v, s.sizes.getD p.2 0)))
+
+/-! ### a model WITH sharing: references, a heap, and the code's copy decisions made explicit
+
+The value-level model above cannot express aliasing.  Here `data[loc][name]` maps an index to a
+*reference*; array contents live in a heap; the caller holds references too (arrays it passed in
+or got back) and may overwrite them in place.  `Policy` records, statement by statement, whether the
+code copies (`codePolicy` = the code as it is; other policies are the seeded no-copy variants). -/
+
+structure Policy where
+  /-- `data[loc][name][index] = values.copy()` -/
+  copySet : Bool
+  /-- `value = data[loc][name][index].copy()` -/
+  copyGet : Bool
+  /-- `data[location][name][i] = data[location][name][i - 1].copy()` -/
+  copyShift : Bool
+  /-- the same statement in the first pass of the loop when the history grows (oldest array) -/
+  copyShiftOldest : Bool
+
+def codePolicy : Policy := ⟨true, true, true, true⟩
+
+structure HState where
+  /-- heap: reference ↦ array contents -/
+  cells : List (Nat × Val)
+  /-- next fresh reference -/
+  next : Nat
+  /-- `data[loc][name]`: index ↦ reference -/
+  store : List (Nat × Nat)
+  /-- references the caller holds, in the order it obtained them -/
+  held : List Nat
+
+def HState.empty : HState := ⟨[], 0, [], []⟩
+
+def deref (st : HState) (r : Nat) : Val := (alookup st.cells r).getD []
+
+def alloc (st : HState) (v : Val) : HState × Nat :=
+  ({ st with cells := ainsert st.cells st.next v, next := st.next + 1 }, st.next)
+
+/-- `x.copy()` if the code copies at this place, `x` itself otherwise -/
+def copyIf (c : Bool) (st : HState) (r : Nat) : HState × Nat :=
+  if c then alloc st (deref st r) else (st, r)
+
+inductive HOp where
+  /-- the caller creates an array -/
+  | new (v : Val)
+  /-- the caller overwrites the `k`-th array it holds in place (`arr[...] = v`) -/
+  | mutate (k : Nat) (v : Val)
+  /-- `set_solution_values(values = k-th held array, index i)` -/
+  | set (i k : Nat)
+  /-- the same with `additive=True` (`+=` in place) -/
+  | add (i k : Nat)
+  /-- `get_solution_values(index i)`; the caller holds the result afterwards -/
+  | get (i : Nat)
+  | shift (m : Option Int)
+
+/-- the loop of `shift_solution_values` on references; `c` = copy decision of the current pass -/
+def hshiftLoop (pol : Policy) : Bool → Nat → HState → HState × Bool
+  | _, 0, st => (st, true)
+  | c, i + 1, st =>
+    match alookup st.store i with
+    | none => (st, false)
+    | some q =>
+      let r := copyIf c st q
+      hshiftLoop pol pol.copyShift i { r.1 with store := ainsert r.1.store (i + 1) r.2 }
+
+def hstep (pol : Policy) (st : HState) : HOp → HState × Out
+  | .new v =>
+    let r := alloc st v
+    ({ r.1 with held := r.1.held ++ [r.2] }, .ok)
+  | .mutate k v =>
+    match st.held[k]? with
+    | none => (st, .ok)
+    | some r => ({ st with cells := ainsert st.cells r v }, .ok)
+  | .set i k =>
+    match st.held[k]? with
+    | none => (st, .ok)
+    | some r =>
+      let c := copyIf pol.copySet st r
+      ({ c.1 with store := ainsert c.1.store i c.2 }, .ok)
+  | .add i k =>
+    match st.held[k]? with
+    | none => (st, .ok)
+    | some r =>
+      match alookup st.store i with
+      | none => (st, .err .valueError)
+      | some q => ({ st with cells := ainsert st.cells q (vadd (deref st q) (deref st r)) }, .ok)
+  | .get i =>
+    match alookup st.store i with
+    | none => (st, .err .keyError)
+    | some q =>
+      let c := copyIf pol.copyGet st q
+      ({ c.1 with held := c.1.held ++ [c.2] }, .val (deref st q))
+  | .shift m =>
+    match shiftStart st.store.length m with
+    | none => (st, .err .valueError)
+    | some top =>
+      let r := hshiftLoop pol (if top = st.store.length then pol.copyShiftOldest else pol.copyShift) top st
+      (r.1, if r.2 then .ok else .err .keyError)
+
+def hexec (pol : Policy) : HState → List HOp → HState
+  | st, [] => st
+  | st, op :: ops => hexec pol (hstep pol st op).1 ops
+
+def hrun (pol : Policy) : HState → List HOp → List Out
+  | _, [] => []
+  | st, op :: ops => (hstep pol st op).2 :: hrun pol (hstep pol st op).1 ops
+
+/-- **Separation**: no two slots share a reference, no slot shares a reference with an array the
+    caller holds, and every reference in use has been allocated. -/
+def Sep (st : HState) : Prop :=
+  (st.store.map (·.2)).Nodup ∧ (∀ r ∈ st.store.map (·.2), r ∉ st.held) ∧
+    (∀ r ∈ st.store.map (·.2), r < st.next) ∧ (∀ r ∈ st.held, r < st.next)
+
+instance (st : HState) : Decidable (Sep st) := by unfold Sep; infer_instance
+
+/-- the value-level store a heap state denotes -/
+def view (st : HState) : Store := st.store.map (fun p => (p.1, deref st p.2))
+
+/-- the value-level call a heap-level call amounts to (array contents taken at call time);
+    `none`: the caller's own business (`new`, `mutate`, or an array it does not hold) -/
+def valueOp (st : HState) : HOp → Option Op
+  | .new _ => none
+  | .mutate _ _ => none
+  | .set i k => (st.held[k]?).map (fun r => .set i (deref st r))
+  | .add i k => (st.held[k]?).map (fun r => .add i (deref st r))
+  | .get i => some (.get i)
+  | .shift m => some (.shift m)
+
+/-- replay of a heap-level history on the value-level model -/
+def vrun : HState → Store → List HOp → List Out
+  | _, _, [] => []
+  | st, s, op :: ops =>
+    match valueOp st op with
+    | none => .ok :: vrun (hstep codePolicy st op).1 s ops
+    | some vop => (step s vop).2 :: vrun (hstep codePolicy st op).1 (step s vop).1 ops
+
+def isMutate : HOp → Bool
+  | .mutate _ _ => true
+  | _ => false
 
 end PorepyVerif.C08
